@@ -878,3 +878,77 @@ func maxInt(a, b int) int {
 	}
 	return b
 }
+
+// ---------- nesting: cost of decoding must not blow up with nesting depth ----------
+//
+// "fails to terminate" for inputs up to 1 MiB cannot be observed directly when the blow-up is
+// quadratic (it would take hours and terabytes), so it is observed by scaling: the same truncated,
+// deeply nested type descriptor is decoded at depth d and 4d and the bytes allocated by the call are
+// compared (allocation counts do not depend on machine load). A linear decoder allocates ~4x as much,
+// a quadratic one ~16x.
+
+func init() {
+	Register(&Scenario{Name: "nest", Property: "C04", Body: c04Nest, NoBubble: true})
+	pd := props["C04"]
+	prev := pd.Case
+	pd.Case = func(w *Worker, i int) {
+		prev(w, i)
+		if i%4 == 0 {
+			w.Exec(RunSpec{Scenario: "nest", Index: i, Params: map[string]int{"kind": (i / 4) % 3, "version": (i / 12) % len(allVersions)}})
+		}
+	}
+}
+
+func c04NestedType(kind, depth int) []byte {
+	var b []byte
+	for i := 0; i < depth; i++ {
+		switch kind {
+		case 0:
+			b = append(b, 0x00, 0x20) // list<
+		case 1:
+			b = append(b, 0x00, 0x22) // set<
+		default:
+			b = append(b, 0x00, 0x21, 0x00, 0x09) // map<int,
+		}
+	}
+	return append(b, 0x00, 0x09) // int
+}
+
+func c04Nest(r *Run) {
+	const P = "C04"
+	kind := r.Spec.Params["kind"] % 3
+	v := allVersions[r.Spec.Params["version"]%len(allVersions)]
+	name := []string{"list", "set", "map"}[kind]
+	r.Config["entry_point"] = "ReadDataType"
+	r.Config["input"] = fmt.Sprintf("%s nested d and 4d levels deep, last 2 bytes cut off (version %v)", name, v)
+	measure := func(depth int) (allocated uint64, dur time.Duration, size int) {
+		in := c04NestedType(kind, depth)
+		in = in[:len(in)-2] // truncated in transit: the innermost element type is missing
+		runtime.GC()
+		var m0, m1 runtime.MemStats
+		runtime.ReadMemStats(&m0)
+		t0 := time.Now()
+		func() {
+			defer func() { _ = recover() }()
+			_, _ = datatype.ReadDataType(bytes.NewReader(in), v)
+		}()
+		dur = time.Since(t0)
+		runtime.ReadMemStats(&m1)
+		return m1.TotalAlloc - m0.TotalAlloc, dur, len(in)
+	}
+	const d = 250
+	a1, t1, n1 := measure(d)
+	a2, t2, n2 := measure(4 * d)
+	r.Nontrivial = true
+	r.Evals = 2
+	r.Probes["nesting_pairs_measured"]++
+	ratio := float64(a2) / float64(a1+1)
+	r.Config["measured"] = fmt.Sprintf("depth %d: %d bytes in, %d bytes allocated, %v; depth %d: %d bytes in, %d bytes allocated, %v; ratio %.1f", d, n1, a1, t1, 4*d, n2, a2, t2, ratio)
+	// linear: ~4; n log n: ~5; quadratic: ~16. Also require a substantial absolute amount so that
+	// constant overheads cannot matter.
+	if ratio > 10 && a2 > 8<<20 {
+		per := float64(a2) / float64(4*d) / float64(4*d)
+		atLimit := per * 524288 * 524288
+		r.Violate(P, "terminates", "superlinear-decode:ReadDataType/nested-"+name, "ReadDataType on a truncated %s type nested %d deep (%d input bytes) allocates %d bytes, nested %d deep (%d input bytes) %d bytes: x%.1f for x4 input, i.e. quadratic. Extrapolated to the 1 MiB input bound (524288 levels) that is about %.0f GiB and a proportional running time: the call does not terminate in practice (measured: %v and %v)", name, d, n1, a1, 4*d, n2, a2, ratio, atLimit/(1<<30), t1, t2)
+	}
+}
